@@ -153,7 +153,11 @@ class Gen:
             return {"k": "cc"}, "CHOICE_COUNT()"
         a, ta = self.expr(depth + 1)
         op = r.choice(["+", "-", "*", "+", "-", "%", "/"])
-        if op in ("%", "/"):
+        if op in ("%", "/") and self.has("faults") and getattr(self, "div_ok", False) and self.int_vars() and self.p(0.6):
+            # a divisor that may be zero when the statement is executed: a runtime error
+            v = r.choice(self.int_vars())
+            b, tb = {"k": "var", "n": v}, v
+        elif op in ("%", "/"):
             n = r.randint(1, 3)
             b, tb = {"k": "lit", "v": I(n)}, str(n)
         else:
@@ -216,7 +220,9 @@ class Gen:
                     v = r.choice(typed)
                     e, t = {"k": "var", "n": v}, v
                 else:
+                    self.div_ok = getattr(self, "in_line", False)
                     e, t = self.expr()
+                    self.div_ok = False
                 segs.append(("stmt", {"k": "p", "e": e}, "{%s}" % t))
             elif k < 0.8 and self.has("icond") and rich is True:
                 c, tc = self.expr(boolean=True)
@@ -279,7 +285,9 @@ class Gen:
             t = self.words(1, 2)
             # (a line of tags only is not ended by a newline)
             return [{"k": "tag", "b": self.body([{"k": "s", "v": chars(t)}])}], [ind + "# " + t]
+        self.in_line = True
         stmts, text = self.lower(self.segments())
+        self.in_line = False
         return stmts + [{"k": "nl"}], [ind + text]
 
     def logic(self, ind):
@@ -305,7 +313,9 @@ class Gen:
             e, t = self.str_expr() if g["v"]["t"] == "str" else self.expr(boolean=True)
             return [{"k": "set", "x": g["n"], "e": e}] + [NL] * has_call(e), ["%s~ %s = %s" % (ind, g["n"], t)]
         if self.has("temp") and self.p(0.3):
+            self.div_ok = True
             e, t = self.expr()
+            self.div_ok = False
             name = self.fresh("t")
             st = {"k": "temp", "x": name, "e": e}
             self.temps.append(name)
@@ -313,7 +323,9 @@ class Gen:
         x = r.choice(ints + list(self.temps)) if ints else None
         if x is None:
             return [], []
+        self.div_ok = True
         e, t = self.expr()
+        self.div_ok = False
         return [{"k": "set", "x": x, "e": e}] + [NL] * has_call(e), ["%s~ %s = %s" % (ind, x, t)]
 
     def block_if(self, ind):
@@ -425,7 +437,17 @@ class Gen:
         stmts, lines = [], []
         for _ in range(n):
             k = self.r.random()
-            if k < 0.5:
+            if k < 0.12 and self.has("faults") and ind == "" and self.kinds.get(self.cur.split(".")[0], "knot") == "knot":
+                # a warning: a temporary is read although its declaration has never been executed (it reads as 0)
+                self.wt_n = getattr(self, "wt_n", 0) + 1
+                name = "wt%d" % self.wt_n
+                w = self.words(1, 1)
+                never = {"k": "b", "op": "==", "a": {"k": "lit", "v": I(1)}, "b": {"k": "lit", "v": I(2)}}
+                br = [{"c": never, "b": self.body([{"k": "nl"}, {"k": "temp", "x": name, "e": {"k": "lit", "v": I(0)}}])}]
+                s = [{"k": "if", "br": br}, {"k": "nl"},
+                     {"k": "s", "v": chars("wrn ")}, {"k": "p", "e": {"k": "var", "n": name}}, {"k": "s", "v": chars(" " + w)}, {"k": "nl"}]
+                l = ["{", "- (1 == 2):", "    ~ temp %s = 0" % name, "}", "wrn {%s} %s" % (name, w)]
+            elif k < 0.5:
                 s, l = self.line(ind)
             elif k < 0.68 and self.has("set"):
                 s, l = self.logic(ind)
@@ -660,6 +682,10 @@ class Gen:
             c, cl = self.choice_block(1, tail1 if kind == "knot" else (lambda ind: ending(ind)))
             stmts += c
             lines += cl
+        elif self.has("faults") and kind == "knot" and self.p(0.4):
+            # a loose end: the story runs out of content here (a runtime error).  (Only where no weave precedes: after a
+            # gather the compiler ends the flow quietly.)
+            pass
         else:
             e, el = ending("")
             stmts += e
